@@ -363,7 +363,9 @@ func report(eng *Engine, prop, tier string, fvs []*funcVC, results []*Result, un
 	isKnown := func(ob *Oblig) *knownFinding {
 		for i := range known {
 			k := &known[i]
-			if k.Status == "open" && k.Obligation == ob.Name && (k.Property == prop || prop == "") {
+			if k.Status == "open" && k.Obligation == ob.Name {
+				// a listed finding is reported (under the property it violates) by every check whose closure contains it
+
 				return k
 			}
 		}
